@@ -98,9 +98,21 @@ def correspondence(ctx, d, reqs, meta):
     from rsome.lp import RoConstr
     with C.quiet():
         m, h = O.build(d)
-    for ci, con in enumerate(m.all_constr):
+    parts = []
+    for con in m.all_constr:
         if not isinstance(con, RoConstr):
             continue
+        sense = con.sense[0] if isinstance(con.sense, np.ndarray) else con.sense
+        if sense == 0:
+            parts.append(con)
+        else:
+            # a robust equality is split into two inequalities when the model is formulated (ro.Model.do_math)
+            from rsome.lp import RoAffine
+            for sg in (1, -1):
+                p_ = RoConstr(RoAffine(sg * con.raffine, sg * con.affine, con.rand_model), sense=0)
+                p_.support = con.support
+                parts.append(p_)
+    for ci, con in enumerate(parts):
         support = con.support if con.support else m.obj_support
         if support is None or getattr(support, 'lmi', None):
             continue
